@@ -135,6 +135,26 @@ func (vc *VC) run() (err error) {
 		vc.curBlock = b
 		vc.execBlock(b, h)
 	}
+	if fn.Recover != nil && len(vc.recoverEdges) > 0 {
+		// the recover block: entered from every panic path on which a deferred call recovered
+		rb := fn.Recover
+		var rs []string
+		for _, e := range vc.recoverEdges {
+			rs = append(rs, e.reach)
+		}
+		hr := vc.recoverEdges[len(vc.recoverEdges)-1].h.clone()
+		for i := len(vc.recoverEdges) - 2; i >= 0; i-- {
+			vc.mergeGuarded(hr, vc.recoverEdges[i].h, vc.recoverEdges[i].reach)
+		}
+		reach := vc.define("reach_recover", SBool, or(rs...))
+		vc.curBlock = rb
+		vc.reach[rb] = reach
+		vc.panicking = "false"
+		for _, in := range rb.Instrs {
+			reach = vc.execInstr(rb, in, hr, reach)
+		}
+		vc.panicking = ""
+	}
 	return nil
 }
 
@@ -959,7 +979,11 @@ func (vc *VC) execInstr(b *ssa.BasicBlock, in ssa.Instruction, h *Heap, reach st
 		r := vc.newRef(h, "closure")
 		vc.vals[x] = mk(r, SInt).withType(x.Type())
 	case *ssa.Call:
+		vc.lastCallReach = ""
 		res := vc.execCall(x, x.Common(), h, &reach)
+		if vc.lastCallReach != "" {
+			reach = vc.lastCallReach // execution continues only if the callee did not panic
+		}
 		sig := x.Common().Signature()
 		switch sig.Results().Len() {
 		case 0:
@@ -1621,7 +1645,7 @@ func (vc *VC) frameGoals(c *Contract, h *Heap) [][2]string {
 	a0 := vc.get(vc.entryHeap, "$alloc")
 	var out [][2]string
 	for _, comp := range sortedKeys(vc.compSortSet()) {
-		if comp == "$alloc" || strings.HasPrefix(comp, "Gcalls_") || strings.HasPrefix(comp, "Ghash_") || comp == "Gerr_n" {
+		if comp == "$alloc" || strings.HasPrefix(comp, "Gcalls_") || strings.HasPrefix(comp, "Ghash_") || strings.HasPrefix(comp, "Gres_") || comp == "Gerr_n" {
 			continue // ghost state is outside every frame
 		}
 		cur := vc.get(h, comp)
